@@ -105,6 +105,18 @@ func runAnalysisProp(prop string, r *Rng, n int, tier string) {
 					emitAnalysis(prop, fmt.Sprintf("%s-c%d", id, k), engine, schema, q2, "", false, nil)
 				}
 			}
+			// a column name that exists, but in ANOTHER relation of the schema (possibly of the statement): the
+			// database's scoping rule decides, not mere existence
+			for k, other := range []string{"slug", "title", "bio", "author_id", "created_at"} {
+				if k%2 != int(cr.Intn(2)) {
+					continue
+				}
+				if sql, ok := replaceOneWord(cr, q.SQL, []string{"name", "bio", "age", "tags", "title", "price", "slug", "author_id"}, other); ok && sql != q.SQL {
+					q2 := q
+					q2.SQL, q2.Known = sql, nil
+					emitAnalysis(prop, fmt.Sprintf("%s-x%d", id, k), engine, schema, q2, "", false, nil)
+				}
+			}
 			if engine == "postgresql" {
 				// one ALTER TABLE with several actions (a drop first), in two variants
 				gone := [][2]string{{"authors", "name"}, {"authors", "age"}, {"books", "title"}, {"books", "price"}}
@@ -134,10 +146,15 @@ func runAnalysisProp(prop string, r *Rng, n int, tier string) {
 		case "C07":
 			if i%2 == 0 {
 				q = genStarStmt(r, s, i)
+			} else if i%4 == 3 {
+				q, _ = genNearModelStmt(r, s, i)
 			}
 		case "C02":
 			if i%2 == 0 {
 				q = genShapeStmt(r, s, i)
+			} else if i%4 == 1 {
+				// column lists that are, or nearly are, a table's own: the row may be read into the model struct
+				q, _ = genNearModelStmt(r, s, i)
 			}
 		case "C05", "C08":
 			if engine == "postgresql" && i%3 == 0 {
